@@ -100,7 +100,19 @@ def scripts(draw, tier):
         # then the first one to meet the rule
         c["tol_near"] = {"j": draw(st.integers(55, 72)), "sign": draw(st.sampled_from([1, 1, 1, -1])), "delta": draw(st.sampled_from([1e-8, 1e-6, 1e-3]))}
     if not long_ and draw(st.integers(0, 3)) == 0:
-        c["clear_at"] = c["se"] + draw(st.integers(1, 8))      # re-entrant use: evaluator.clear_history() called from a callback at the start of this epoch
+        m_ = draw(st.integers(1, 8))
+        c["clear_at"] = c["se"] + m_      # re-entrant use: evaluator.clear_history() called from a callback at the start of this epoch
+        if 2 <= m_ <= 4 and crit != "variance" and draw(st.booleans()):
+            # ... aligned so that the rule is first met when the cleared history has grown back to the length it had at the last check before
+            # the clear (slowly converging values, evaluator and stopper period 1, the tolerance just above the deviation of that evaluation)
+            p_ = draw(st.integers(1, m_ - 1))
+            r_, b0_ = draw(st.floats(0.5, 0.9, allow_nan=False, width=64)), draw(st.floats(0.5, 3.0, allow_nan=False, width=64))
+            Lg_ = 2 * m_ + 2
+            c["vals"] = [b0_ * r_ ** i_ + 1.0 for i_ in range(Lg_)]
+            if c.get("ds"):
+                c["ds"] = (c["ds"] * Lg_)[:Lg_]
+            c.update(patience=p_, pe=1, ps=1, rounds=1, family="geometric", stopper_first=False, abort_between=False, se=c["se"])
+            c["tol_near"] = {"j": 2 * m_ - 1 - p_, "sign": 1, "delta": 1e-3}
     c["second_same_quantity"] = draw(st.booleans())  # another stopper on the SAME evaluator (other quantity, other patience, tolerance 0: never fires)
     return c
 
